@@ -2,6 +2,7 @@ import Pyc.Driver.Value
 import Pyc.Driver.Canonical
 import Pyc.Driver.Output
 import Pyc.Driver.Builder
+import Pyc.Driver.Codec
 import Pyc.Driver.Selection
 import Pyc.Driver.Addr
 import Pyc.Driver.Backends
@@ -22,6 +23,7 @@ def dispatch (op : String) (j : Json) : R Json :=
   else if op.startsWith "enc." then handleEnc op j
   else if op.startsWith "out." || op.startsWith "fee." then handleOutput op j
   else if op.startsWith "builder." then handleBuilder op j
+  else if op.startsWith "codec." || op.startsWith "cbor." then handleCodec op j
   else if op.startsWith "sel." then handleSelection op j
   else if op.startsWith "backend." then handleBackend op j
   else if op.startsWith "bip32." then handleBip32 op j
